@@ -638,9 +638,18 @@ func (e *Exec) assume(cond *Term) {
 func (e *Exec) assertProp(id string, cond *Term) {
 	e.res.Reached[id]++
 	if cond.IsTrue() {
-		if e.pos >= len(e.trail) || true {
-			e.res.Obligations++
-			e.res.Discharged++
+		e.res.Obligations++
+		e.res.Discharged++
+		// trivial only if nothing symbolic led here: an assertion that folds to true on a
+		// path whose condition the solver had to decide is still a solver-decided obligation
+		symbolic := false
+		for _, te := range e.trail[:e.pos] {
+			if te.kind == tBranch || te.kind == tAssume {
+				symbolic = true
+				break
+			}
+		}
+		if !symbolic {
 			e.res.Trivial++
 		}
 		return
